@@ -1238,6 +1238,29 @@ func addRule(c *core.Ctx, rel, typ string) {
 			} else {
 				c.OK("C16-ADD", key, pos, "mutation is visible to the caller")
 			}
+			// the entry goes under its own tag: container[entry.tag] = entry (a constructor call or a literal built from the
+			// key counts as an entry with that tag)
+			if fnObj, _ := pkg.TypesInfo.Defs[fd.Name].(*types.Func); fnObj != nil {
+				if sf := c.Prog.SSAFunc(fnObj); sf != nil {
+					var bad []string
+					n := 0
+					for _, b := range sf.Blocks {
+						for _, ins := range b.Instrs {
+							mu, isMU := ins.(*ssa.MapUpdate)
+							if !isMU {
+								continue
+							}
+							n++
+							if why := keyedByOwnTag(mu); why != "" {
+								bad = append(bad, why)
+							}
+						}
+					}
+					if n > 0 {
+						c.Decide(len(bad) == 0, "C16-ADD", key+"#key", pos, "the entry is stored under its own tag", strings.Join(dedup(bad), "; "))
+					}
+				}
+			}
 			// with a value receiver a store still reaches the caller's map when that map exists: on every path on which
 			// the receiver was found non-nil (or not tested) the map updated is the receiver itself, not a fresh map
 			if fnObj, _ := pkg.TypesInfo.Defs[fd.Name].(*types.Func); !isPtr && fnObj != nil {
@@ -1809,4 +1832,69 @@ func isEntryLength(v ssa.Value, rg *ssa.Range) bool {
 		return false
 	}
 	return rangedEntry(f.X) == rg
+}
+
+// keyedByOwnTag: the map update stores an entry under that entry's tag. "" if so.
+func keyedByOwnTag(mu *ssa.MapUpdate) string {
+	key := stripConv(mu.Key)
+	val := mu.Value
+	// the entry: a struct value - a parameter (spilled or not), or a local literal
+	var cell ssa.Value // the address the entry value was loaded from, if any
+	if ld, ok := val.(*ssa.UnOp); ok && ld.Op == token.MUL {
+		cell = ld.X
+	}
+	tagOf := func(st *types.Struct) int {
+		for i := 0; i < st.NumFields(); i++ {
+			if strings.EqualFold(st.Field(i).Name(), "tag") {
+				return i
+			}
+		}
+		return -1
+	}
+	st, _ := val.Type().Underlying().(*types.Struct)
+	if st == nil {
+		return "the value stored is not an entry struct"
+	}
+	ti := tagOf(st)
+	if ti < 0 {
+		return "the entry type has no tag field"
+	}
+	switch k := key.(type) {
+	case *ssa.Field:
+		if k.X == val && k.Field == ti {
+			return ""
+		}
+		if k.Field != ti {
+			return "the entry is stored under its field " + st.Field(k.Field).Name() + ", not under its tag: lookups by tag miss it and entries with equal " + st.Field(k.Field).Name() + " overwrite each other"
+		}
+	case *ssa.UnOp:
+		if fa, ok := k.X.(*ssa.FieldAddr); ok && k.Op == token.MUL {
+			if cell != nil && fa.X == cell {
+				if fa.Field == ti {
+					return ""
+				}
+				return "the entry is stored under its field " + st.Field(fa.Field).Name() + ", not under its tag: lookups by tag miss it and entries with equal " + st.Field(fa.Field).Name() + " overwrite each other"
+			}
+		}
+	}
+	// an entry made from the key: NewTLV(key, ..) / Option{tag: key, ..}
+	if call, ok := val.(*ssa.Call); ok && len(call.Call.Args) >= 1 && stripConv(call.Call.Args[0]) == key {
+		if cal := call.Call.StaticCallee(); cal != nil && isEntryConstructor(cal) {
+			return ""
+		}
+	}
+	if cell != nil {
+		if al, ok := cell.(*ssa.Alloc); ok && al.Referrers() != nil {
+			for _, r := range *al.Referrers() {
+				if fa, isFA := r.(*ssa.FieldAddr); isFA && fa.Field == ti && fa.Referrers() != nil {
+					for _, rr := range *fa.Referrers() {
+						if stt, isSt := rr.(*ssa.Store); isSt && stt.Addr == ssa.Value(fa) && stripConv(stt.Val) == key {
+							return ""
+						}
+					}
+				}
+			}
+		}
+	}
+	return "the key of the map update is not the tag of the entry stored"
 }
